@@ -28,8 +28,10 @@
  * A table that register_init refuses ends its case as a trivial one
  * (init-refused): whether a description is accepted is C04's sentence.  So does
  * a case whose intervening call reached an injected callback fault and left a
- * table that answers UNINITIALISED (latched-after-fault): no statement
- * mentions driver I/O errors.  Handles that are not registers are built from
+ * table that is wholly or partly out of service (any non-success answer to a
+ * zero-length block read or to a full-extent block read of one of its areas,
+ * faults disarmed: latched-after-fault): no statement mentions driver I/O
+ * errors.  Handles that are not registers are built from
  * the library's handle type (entries.., MAX/2, MAX/2+1, MAX), not literals.
  */
 #include "mc.h"
@@ -1182,7 +1184,7 @@ other_call(int op, RegisterType rt, const struct rspec *rs)
     tb.cb_oob = 0;
     free(buf);
     if (g_fault_hit && tab_out_of_service(&tb)) {
-        mc_log("the table answers UNINITIALISED after the injected I/O error: out of service, sets not judged");
+        mc_log("the table refuses a zero-length or a full-extent block read of its areas after the injected I/O error: out of service, sets not judged");
         return false;
     }
     return true;
